@@ -315,11 +315,15 @@ func (l *largestBackgroundLearner) Succeeded(duration time.Duration, sizeClasses
 		},
 	})
 	for i, sizeClass := range sizeClasses {
-		if sizeClass == l.smallerSizeClass {
+		if sizeClass == l.smallerSizeClass && sizeClasses[len(sizeClasses)-1] == l.largestSizeClass {
 			// The smaller size class on which we originally
-			// wanted to run the action still exists.
-			// Request that it's run on that size class once
-			// again, for training purposes.
+			// wanted to run the action still exists, and the
+			// largest size class is still the one the action
+			// just succeeded on (GetBackgroundExecutionTimeout()
+			// requires a successful execution on the largest
+			// size class in the list). Request that it's run
+			// on the smaller size class once again, for
+			// training purposes.
 			perSizeClassStatsMap := l.handle.GetMutableProto().SizeClasses
 			smallerTimeout := l.analyzer.strategyCalculator.GetBackgroundExecutionTimeout(
 				perSizeClassStatsMap,
@@ -340,9 +344,9 @@ func (l *largestBackgroundLearner) Succeeded(duration time.Duration, sizeClasses
 				}
 		}
 	}
-	// Corner case: the smaller size class disappeared before we got
-	// a chance to schedule the action on it. Let's not do any
-	// background learning.
+	// Corner case: the smaller size class disappeared or the largest
+	// size class changed before we got a chance to schedule the
+	// action on it. Let's not do any background learning.
 	l.handle.Release(true)
 	l.handle = nil
 	return 0, 0, 0, nil
